@@ -134,7 +134,7 @@ class _Handle(object):
             new = len(self._data()) + off
         else:
             raise ValueError('invalid whence')
-        self.fs._rec(self, 'seek', new, 0)
+        self.fs._rec(self, 'seek', new, off)
         if new < 0:
             # a real binary file raises EINVAL for a negative absolute position
             raise OSError(errno.EINVAL, 'Invalid argument')
